@@ -904,6 +904,8 @@ func (e *e1Engine) eval(fn *ssa.Function, row *Row) e1Result {
 		}
 	}
 	// count targets present anywhere
+	throughNoPrune = true
+	defer func() { throughNoPrune = false }()
 	for _, b := range fn.Blocks {
 		for _, ins := range b.Instrs {
 			res.facts++
@@ -918,6 +920,7 @@ func (e *e1Engine) eval(fn *ssa.Function, row *Row) e1Result {
 			}
 		}
 	}
+	throughNoPrune = false
 	// pass 2: first reachable target (when row.From is set: only targets that
 	// lie after a call matching From on some feasible path)
 	res.ok = true
